@@ -26,7 +26,17 @@ NEEDS_CICADA = True
 ALLOWED_AXIOMS = []
 PINNED = ["C09_full", "C09_step", "C09_step_invariant", "C09_abs", "C09_pwd", "C09_read_remainder_verbatim",
           "C09_regress_prefix_over_exported", "C09_regress_ifs_shadowed", "C09_regress_read_rejoined",
-          "C09_regress_cd_home", "C09_nonvacuous"]
+          "C09_regress_cd_home", "C09_nonvacuous", "C09_is_env_is_source_regex",
+          "C09_read_ident_is_source_regex", "C09_export_name_is_source_regex", "C09_exec_env_is_source_regex"]
+
+
+def gen(ctx=None):
+    """Gen/ToolsRegexes.v from the regex literals of tools.rs (round 9; proof in Proofs/ToolsRegexProofs.v)"""
+    import regexsites
+    regexsites.gen_tools()
+    regexsites.gen_builtins()
+
+
 TRUSTED = [
     "Coq 8.16.1 kernel (coqc; coqchk in thorough); vm_compute only in Example witnesses and refutation witnesses",
     "hand transcription of set_env/get_env/remove_env/expand_one_env's lookup, drain_env_tokens, run_proc, the child "
